@@ -62,6 +62,23 @@ pub fn set_indexer_max_count(n: usize) {
     INDEXER_MAX_COUNT.store(n, std::sync::atomic::Ordering::SeqCst);
 }
 
+static PACK_READ_LIMITS: std::sync::atomic::AtomicU64 = std::sync::atomic::AtomicU64::new(0);
+
+/// Override the limits for coalescing partial pack reads (maximum hole between two blobs, maximum
+/// length of one read); `None` keeps the built-in values.
+pub fn set_pack_read_limits(limits: Option<(u32, u32)>) {
+    let v = limits.map_or(0, |(hole, limit)| (1 << 63) | (u64::from(hole) << 31) | u64::from(limit & 0x7fff_ffff));
+    PACK_READ_LIMITS.store(v, std::sync::atomic::Ordering::SeqCst);
+}
+
+/// (maximum hole size, maximum read length)
+pub(crate) fn pack_read_limits(default: (u32, u32)) -> (u32, u32) {
+    match PACK_READ_LIMITS.load(std::sync::atomic::Ordering::SeqCst) {
+        0 => default,
+        v => (((v >> 31) & 0xffff_ffff) as u32, (v & 0x7fff_ffff) as u32),
+    }
+}
+
 pub(crate) fn indexer_max_count(default: usize) -> usize {
     match INDEXER_MAX_COUNT.load(std::sync::atomic::Ordering::SeqCst) {
         0 => default,
